@@ -443,7 +443,22 @@ def alphabet(S, A, unit, sectors, lean=False):
 def _handles(stream):
     """The file objects the caller supplied (the caller owns them and may move them between calls)."""
     out = []
-    for obj in [stream] + list(getattr(stream, "disks", []) or []) + [getattr(stream, "disk", None)]:
+    objs = [stream] + list(getattr(stream, "disks", []) or []) + [getattr(stream, "disk", None)]
+    # parent / backing / data-file objects handed to the constructor are the caller's as well (it may read the base image
+    # itself, or share it between two children)
+    seen = 0
+    x = stream
+    while x is not None and seen < 4:
+        for attr in ("parent", "backing_file", "data_file"):
+            y = getattr(x, attr, None)
+            if y is not None and y is not getattr(x, "fh", None) and hasattr(y, "seek") and hasattr(y, "read"):
+                out.append(y)
+                objs.append(y)
+        x = getattr(x, "parent", None) or getattr(x, "backing_file", None)
+        if not hasattr(x, "seek"):
+            break
+        seen += 1
+    for obj in objs:
         fh = getattr(obj, "fh", None)
         if fh is not None and hasattr(fh, "seek") and not isinstance(fh, (str, bytes)):
             out.append(fh)
